@@ -436,7 +436,16 @@ def _calculators():
         "DerBerryCurvature": tabulate.DerBerryCurvature(), "Der2BerryCurvature": tabulate.Der2BerryCurvature(),
         "JDOS": dynamic.JDOS(**kw), "OpticalConductivity": dynamic.OpticalConductivity(**kw), "ShiftCurrent": dynamic.ShiftCurrent(sc_eta=0.1, **kw),
         "InjectionCurrent": dynamic.InjectionCurrent(**kw),
-    } | _static_calculators()
+    } | _sdct_calculators(kw) | _static_calculators()
+
+
+def _sdct_calculators(kw):
+    """the terms of the spatially dispersive conductivity tensor that need only the Hamiltonian and position matrices (sea_I and asym_surf_II need BB / CC)"""
+    try:
+        from wannierberri.calculators import sdct
+    except ImportError:
+        return {}
+    return {"sdct." + nm: getattr(sdct, nm)(**kw) for nm in ("SDCT_sym_sea_II", "SDCT_asym_sea_II", "SDCT_sym_surf_I", "SDCT_asym_surf_I", "SDCT_sym_surf_II") if hasattr(sdct, nm)}
 
 
 STATIC = ["AHC", "AHC_test", "Ohmic_FermiSea", "Ohmic_FermiSurf", "Hall_classic_FermiSurf", "Hall_classic_FermiSea", "BerryDipole_FermiSurf", "BerryDipole_FermiSea",
@@ -489,5 +498,5 @@ def _real_parities(rng, n):
 
 
 Unit("C08", "values at -k against the declared transformation of the values at k [real code, symmetric random models]", concrete=_real_parities,
-     bounded_desc="installed Data_K_R + 9 tabulators (energy ... second derivative of the Berry curvature, internal / external variants) + JDOS, optical conductivity, shift current, injection current + 14 static calculators (AHC, Ohmic, classical Hall, Berry dipole, non-linear Drude, quantum metric ...) "
+     bounded_desc="installed Data_K_R + 9 tabulators (energy ... second derivative of the Berry curvature, internal / external variants) + JDOS, optical conductivity, shift current, injection current, five terms of the spatially dispersive conductivity + 14 static calculators (AHC, Ohmic, classical Hall, Berry dipole, non-linear Drude, quantum metric ...) "
                   "at a random k and -k of 2 (quick) / 6 (thorough) random 3-band time-reversal symmetric and inversion-symmetric models (Hamiltonian and position matrices)")
